@@ -28,7 +28,7 @@ RULE = ('cases = provider {C-ECHO, C-STORE, C-FIND, C-MOVE, N-ACTION (+ its N-EV
         'SOP instance UIDs x handler outcome {success, warning, failure, EventHandlingError where '
         'documented} x seeded schedule; oracle = reference command reader on the wire; '
         'non-trivial = every case; distinct = distinct (provider, ids, outcome)'
-        '; concurrent family: 2-3 associations clashing on context ids / syntaxes under line-level pre-emption in the encoders; second request on another context of the same class')
+        '; concurrent family: 2-3 associations clashing on context ids / syntaxes under line-level pre-emption in the encoders; second request on another context of the same class; pipelined family: 4-40 requests without waiting; C-GET sub-operations without pending responses')
 ASSUMPTIONS = ['data sets are built/read with pydicom (trusted for data sets; commands and PDUs '
                'are judged by R-codec)', 'EventHandlingError is only injected into providers that '
                'document a failure status for it (echo, store, n-action, n-event-report, c-get '
@@ -60,13 +60,20 @@ def cases(tier, seed):
         yield dict(kind='concurrent', mid=rnd.randrange(65536), outcome='success',
                    pcid=rnd.choice([1, 3, 5]), variant='mixed', npeers=rnd.choice([2, 2, 3]),
                    seed=seed * 100019 + j)
+    # a user that does not wait for a response before it sends its next request (several
+    # operations outstanding): every one of them is answered, in order, each response with the
+    # ids of ITS request
+    for j in range(150 if tier == 'quick' else 6000):
+        yield dict(kind='pipelined', mid=rnd.randrange(65536), outcome='success',
+                   pcid=rnd.choice([1, 3, 5]), variant='mixed', n=rnd.choice([4, 8, 16, 40]),
+                   seed=seed * 100057 + j)
     for j in range(n):
         yield dict(kind=rnd.choice(kinds), mid=rnd.randrange(65536),
                    outcome=rnd.choice(['success', 'warning', 'failure', 'raise']),
                    pcid=rnd.choice([1, 3, 5, 7, 9, 11, 201]),
                    variant=rnd.choice(['success', 'failure', 'mixed']),
                    dest_mute=rnd.random() < 0.25, rel_behind=rnd.random() < 0.2,
-                   seed=seed * 100003 + j)
+                   no_pending=rnd.random() < 0.5, seed=seed * 100003 + j)
 
 
 STATUS = {'success': 0x0000, 'warning': 0xB000, 'failure': 0xA700}
@@ -77,7 +84,124 @@ def run_case(case):
         return _get_case(case)
     if case['kind'] == 'concurrent':
         return _concurrent_case(case)
+    if case['kind'] == 'pipelined':
+        return _pipelined_case(case)
     return _scp_case(case)
+
+
+def _pipelined_case(case):
+    from pynetdicom2 import applicationentity, sopclass
+    import pydicom
+    rnd = random.Random('c17p/%s' % case['seed'])
+    world = SimWorld('c17/%s/p' % case['seed'], with_fs=True)
+    viol = []
+
+    def v(rule, detail):
+        viol.append({'sig': 'C17 %s provider=pipelined' % rule,
+                     'detail': '%s\ncase %r\nhandler errors %r' % (detail, case,
+                                                                   world.handler_errors[:1])})
+    try:
+        class Srv(applicationentity.AE):
+            def on_receive_echo(self, context):
+                if rnd.random() < 0.3:
+                    world.sim.sleep(rnd.choice([0.01, 0.06]))
+                return 0
+
+            def on_receive_store(self, context, ds):
+                if rnd.random() < 0.3:
+                    world.sim.sleep(rnd.choice([0.01, 0.06]))
+                return 0
+        srv = world.make_ae(Srv, 'SRV', 11112, [rc.IMPLICIT_LE], 16384)
+        srv.timeout = 60
+
+        def store2(asce, ctx, msg):
+            return sopclass.storage_scp(asce, ctx, msg)
+        store2.sop_classes = [CT, MR]
+        store2.store_in_file = True
+        srv.add_scp(sopclass.verification_scp).add_scp(store2)
+        world.serve_ae(srv, ADDR)
+        rqs = []
+        for k in range(case['n']):
+            mid = (case['mid'] + rnd.choice([0, 1, 1, 2, 7])) & 0xffff if k else case['mid']
+            if rnd.random() < 0.5:
+                rqs.append(dict(kind='echo', mid=mid, pcid=rnd.choice([1, 201]),
+                                sop=rc.VERIFICATION))
+            else:
+                pc = rnd.choice([3, 11])
+                rqs.append(dict(kind='store', mid=mid, pcid=pc, sop=CT if pc == 3 else MR,
+                                inst='1.2.826.0.1.%d.%d' % (k, rnd.randrange(10 ** 4)),
+                                size=rnd.choice([1, 40, 300, 3000])))
+        out = {'rsps': []}
+
+        def script(peer):
+            p = peer.associate()
+            if not isinstance(p, dict) or p['kind'] != 'A-ASSOCIATE-AC':
+                out['noassoc'] = p
+                return
+            burst = rnd.choice([1, 2, 4, case['n']])
+            for k, r in enumerate(rqs):
+                if r['kind'] == 'echo':
+                    peer.send_message(r['pcid'], {0x0002: r['sop'], 0x0100: 0x0030,
+                                                  0x0110: r['mid'], 0x0800: 0x0101})
+                else:
+                    d = pydicom.Dataset()
+                    d.SOPClassUID = r['sop']
+                    d.SOPInstanceUID = r['inst']
+                    d.PatientName = 'S' * r['size']
+                    peer.send_message(r['pcid'], {0x0002: r['sop'], 0x0100: 0x0001,
+                                                  0x0110: r['mid'], 0x0700: 0, 0x0800: 1,
+                                                  0x1000: r['inst']}, enc_ds(d),
+                                      max_length=rnd.choice([None, 256]))
+                if (k + 1) % burst == 0:
+                    world.sim.sleep(rnd.choice([0.0, 0.01, 0.05]))
+            for _ in rqs:
+                m = peer.read_message(timeout=100.0)
+                if not isinstance(m, dict) or 'fields' not in m:
+                    out['instead'] = m
+                    break
+                out['rsps'].append(m)
+            if not peer.eof and not peer.reset:
+                peer.release()
+        ctxs = ((1, rc.VERIFICATION, (rc.IMPLICIT_LE,)), (3, CT, (rc.IMPLICIT_LE,)),
+                (11, MR, (rc.IMPLICIT_LE,)), (201, rc.VERIFICATION, (rc.IMPLICIT_LE,)))
+        peer = peers.ScriptedRequestor(world.sim, world.net, ADDR, ctxs, script=script)
+        world.spawn(peer.run, 'scu', role='user')
+        world.run(tmax=900)
+        world.drain(3.0)
+        if 'noassoc' in out:
+            return {'harness_error': 'association not accepted: %r' % (out['noassoc'],),
+                    'violations': []}
+        for e in peer.errors:
+            v('peer-saw-protocol-error', e)
+        rsps = out['rsps']
+        if len(rsps) != len(rqs):
+            v('request-not-answered outcome=success',
+              '%d requests sent without waiting, %d responses; instead: %r' % (
+                  len(rqs), len(rsps), out.get('instead')))
+        for k, (r, m) in enumerate(zip(rqs, rsps)):
+            f = m['fields']
+            want_cf = 0x8030 if r['kind'] == 'echo' else 0x8001
+            if f.get(0x0100) != want_cf:
+                v('response-type-wrong', 'request %d (%s): response %r' % (k, r['kind'],
+                                                                         f.get(0x0100)))
+                break
+            if m['pcid'] != r['pcid']:
+                v('response-on-other-context', 'request %d on %d, response on %d' % (
+                    k, r['pcid'], m['pcid']))
+            if f.get(0x0120) != r['mid']:
+                v('message-id-being-responded-to-wrong', 'request %d id %d, response %r' % (
+                    k, r['mid'], f.get(0x0120)))
+            if f.get(0x0002) != r['sop']:
+                v('sop-class-not-repeated', 'request %s response %r' % (r['sop'], f.get(0x0002)))
+            if r['kind'] == 'store' and f.get(0x1000) != r['inst']:
+                v('sop-instance-not-repeated', 'request %s response %r' % (r['inst'],
+                                                                           f.get(0x1000)))
+            if f.get(0x0900) != 0:
+                v('status-not-handler-status outcome=success', 'request %d: %r' % (
+                    k, f.get(0x0900)))
+        return _fin(world, viol, case)
+    finally:
+        world.close()
 
 
 SFIND = '1.2.840.10008.5.1.4.1.2.2.1'
@@ -621,6 +745,8 @@ def _get_case(case):
                     s['pcid'] = ctx
                     peer.send_message(ctx, {0x0002: s['sop'], 0x0100: 0x0001, 0x0110: s['mid'],
                                             0x0700: 0, 0x0800: 1, 0x1000: s['inst']}, enc_ds(d))
+                    if case.get('no_pending'):
+                        continue         # pending responses are optional
                     peer.send_message(m['pcid'], {0x0002: GET, 0x0100: 0x8010,
                                                   0x0120: f.get(0x0110), 0x0800: 0x0101,
                                                   0x0900: 0xFF00, 0x1020: 1, 0x1021: 0, 0x1022: 0,
